@@ -224,8 +224,10 @@ def facts_of(fn: ast.AST, source: str) -> dict:
             dev = None
             if isinstance(sq, ast.BinOp) and isinstance(sq.op, ast.Pow) and isinstance(sq.right, ast.Constant) and sq.right.value == 2:
                 dev = sq.left
+                out["square"] = "d**2"       # pow(): not correctly rounded - differs from d*d in the last bit for some floats
             elif isinstance(sq, ast.BinOp) and isinstance(sq.op, ast.Mult) and ast.dump(sq.left) == ast.dump(sq.right):
                 dev = sq.left
+                out["square"] = "d*d"
             okdev = isinstance(dev, ast.BinOp) and isinstance(dev.op, ast.Sub) and isinstance(dev.left, ast.Name) and dev.left.id == x \
                 and _mean_of(dev.right, source) == fc
             den = q.right
